@@ -2,6 +2,7 @@ import Verif.Props.C07
 import Verif.Props.C06
 import Verif.Props.C05
 import Verif.Props.C18
+import Verif.Proofs.C09Html
 /-!
 # C09 — accepted input yields syntactically valid output that is accepted again
 
@@ -37,5 +38,52 @@ theorem svg_path_output_parses : type_of% @Verif.Props.C05.shorten_output_parses
 
 /-- **SVG path printer**: any well-formed group list lexes back to exactly its tokens -/
 theorem svg_path_lex_roundtrip : type_of% @Verif.Props.C05.path_lex_roundtrip := @Verif.Props.C05.path_lex_roundtrip
+
+/-! ## HTML -/
+
+/-- **HTML attribute values**: the bytes of `EscapeAttrVal` are read by the standard's tokenizer as one value in the form
+    chosen, ending where the bytes end, decoding to the value meant; unquoted only when conforming -/
+theorem html_attr_value_roundtrip : type_of% @Verif.Proofs.C09Html.html_attr_value_roundtrip :=
+  @Verif.Proofs.C09Html.html_attr_value_roundtrip
+
+/-- **HTML `&` ambiguity**: what html.go does to the references of a plain attribute value, then `EscapeAttrVal`, is read
+    back as the input value — guard = C03's open findings K-C03-3 (hex overflow), K-C03-13 (CR + LF reference) -/
+theorem html_attr_written_value_partial : type_of% @Verif.Proofs.C09Html.html_attr_written_value_partial :=
+  @Verif.Proofs.C09Html.html_attr_written_value_partial
+
+/-- the guard is needed (K-C03-3) -/
+theorem html_attr_written_value_counterexample : type_of% @Verif.Proofs.C09Html.html_attr_written_value_counterexample :=
+  @Verif.Proofs.C09Html.html_attr_written_value_counterexample
+
+/-- **HTML start tags**: `<name` + the attributes the model writes + `>` is read as ONE start tag with the attribute list
+    meant (names in order, values decoding to the values handed to `EscapeAttrVal`), not self-closing, for every option
+    set and every attribute branch of html.go; guards: names without `/`, no template attributes -/
+theorem html_start_tag_retokenises : type_of% @Verif.Proofs.C09Html.html_start_tag_retokenises :=
+  @Verif.Proofs.C09Html.html_start_tag_retokenises
+
+/-- **HTML raw-text elements** (script, style, iframe, textarea): the content the model writes does not end the element
+    early and the end tag ends it; guard: no `<!--` in a script (K-C09-HTML-8); contract `SubKeeps` on the sub-minifier -/
+theorem html_rawtext_end_stable_partial : type_of% @Verif.Proofs.C09Html.html_rawtext_end_stable_partial :=
+  @Verif.Proofs.C09Html.html_rawtext_end_stable_partial
+
+/-- without the `<!--` guard it is false (script-data-double-escaped state) -/
+theorem html_rawtext_end_stable_counterexample : type_of% @Verif.Proofs.C09Html.html_rawtext_end_stable_counterexample :=
+  @Verif.Proofs.C09Html.html_rawtext_end_stable_counterexample
+
+/-- **HTML comments**: every comment written is one comment token; guard K-C09-HTML-1, contract K-C09-HTML-3 -/
+theorem html_comment_closed_partial : type_of% @Verif.Proofs.C09Html.html_comment_closed_partial :=
+  @Verif.Proofs.C09Html.html_comment_closed_partial
+
+/-- `<!-->x-->` kept verbatim is not one comment (K-C09-HTML-1) -/
+theorem html_comment_closed_counterexample : type_of% @Verif.Proofs.C09Html.html_comment_closed_counterexample :=
+  @Verif.Proofs.C09Html.html_comment_closed_counterexample
+
+/-- **HTML second pass**: on every token stream the model returns bytes or `ext missing` -/
+theorem html_second_pass_defined : type_of% @Verif.Proofs.C09Html.html_second_pass_defined :=
+  @Verif.Proofs.C09Html.html_second_pass_defined
+
+/-- html.go is not idempotent (not a C09 violation) -/
+theorem html_idempotent_counterexample : type_of% @Verif.Proofs.C09Html.html_idempotent_counterexample :=
+  @Verif.Proofs.C09Html.html_idempotent_counterexample
 
 end Verif.Props.C09
